@@ -34,7 +34,7 @@ SCALARS = [0, 1, -1, 2, -3.5, 1e-9, 1e9, np.float64(0.75), True, 0.0, -2]
 
 
 def cases(tier, seed):
-    n = 1500 if tier == "quick" else 50000
+    n = 1500 if tier == "quick" else 250000
     out = [{"t": "tree", "rep": i, "seed": seed} for i in range(n)]
     out.append({"t": "reject", "seed": seed})
     return out
